@@ -183,6 +183,12 @@ static void construct() {
   g_ev.clear();
 }
 
+static std::string opJson(const std::string& tk) {   // ["A",16] - the token in structured form (for the S fidelity check)
+  size_t q = tk.find('=');
+  std::string k = q == std::string::npos ? tk : tk.substr(0, q);
+  unsigned a = q == std::string::npos ? 0 : (unsigned)strtoul(tk.c_str() + q + 1, nullptr, 16);
+  return "[\"" + k + "\"," + std::to_string(a) + "]";
+}
 static bool execToken(const std::string& tk) {
   g_ev.clear();
   unsigned arg = tk.size() > 2 && tk.find('=') != std::string::npos ? (unsigned)strtoul(tk.c_str() + tk.find('=') + 1, nullptr, 16) : 0;
@@ -265,7 +271,7 @@ static int cmdGraph(const char* outPath) {
     std::string line = "{\"id\":" + std::to_string(expanded) + ",\"st\":" + cur.json() + ",\"succ\":[";
     for (size_t i = 0; i < edges.size(); i++) {
       if (i) line += ",";
-      line += "{\"in\":\"" + edges[i].in + "\",\"ev\":[" + edges[i].ev + "],\"to\":" + std::to_string(edges[i].to) + "}";
+      line += "{\"in\":\"" + edges[i].in + "\",\"op\":" + opJson(edges[i].in) + ",\"ev\":[" + edges[i].ev + "],\"to\":" + std::to_string(edges[i].to) + "}";
     }
     line += "]}\n";
     out.raw(line); nedges += (long)edges.size();
@@ -285,7 +291,7 @@ static int cmdReplay(const char* inPath, const char* outPath) {
     if (tk.empty()) continue;
     Snap pre; VerifAccess::snap(&pre);
     if (!execToken(tk)) g_ev.clear();
-    out.raw("{\"id\":" + std::to_string(id) + ",\"st\":" + pre.json() + ",\"succ\":[{\"in\":\"" + tk + "\",\"ev\":[" + g_ev + "],\"to\":" + std::to_string(id + 1) + "}]}\n");
+    out.raw("{\"id\":" + std::to_string(id) + ",\"st\":" + pre.json() + ",\"succ\":[{\"in\":\"" + tk + "\",\"op\":" + opJson(tk) + ",\"ev\":[" + g_ev + "],\"to\":" + std::to_string(id + 1) + "}]}\n");
     id++;
   }
   Snap last; VerifAccess::snap(&last);
@@ -306,7 +312,7 @@ static int cmdRandom(const char* outPath, long ntraces, long steps) {
   static const uint8_t firsts[] = {0xC4, 0xC6, 0xC7, 0xC8, 0xCA, 0xE8, 0xEB, 0xCC, 0xCD, 0xC0, 0xEC, 0xF0, 0xD4, 0xFF};
   for (long t = 0; t < ntraces; t++) {
     if (t) root += ",";
-    root += "{\"in\":\"T=" + std::to_string(t) + "\",\"ev\":[[\"reset\"]],\"to\":" + std::to_string(id) + "}";
+    root += "{\"in\":\"T=" + std::to_string(t) + "\",\"op\":[\"T\",0],\"ev\":[[\"reset\"]],\"to\":" + std::to_string(id) + "}";
     VerifAccess::restore(fresh);
     // per trace flavour: how malformed / how busy
     unsigned pFrame = 20 + rng.below(60), pJunk = rng.below(25), pRecv = 25 + rng.below(50);
@@ -333,7 +339,7 @@ static int cmdRandom(const char* outPath, long ntraces, long steps) {
         }
       }
       if (!execToken(tk)) g_ev.clear();
-      body += "{\"id\":" + std::to_string(id) + ",\"st\":" + pre.json() + ",\"succ\":[{\"in\":\"" + tk + "\",\"ev\":[" + g_ev + "],\"to\":" + std::to_string(id + 1) + "}]}\n";
+      body += "{\"id\":" + std::to_string(id) + ",\"st\":" + pre.json() + ",\"succ\":[{\"in\":\"" + tk + "\",\"op\":" + opJson(tk) + ",\"ev\":[" + g_ev + "],\"to\":" + std::to_string(id + 1) + "}]}\n";
       id++; nedges++;
     }
     Snap last; VerifAccess::snap(&last);
